@@ -6,9 +6,10 @@ PY="env PYTHONPATH=$wt /venv/bin/python"
 git diff -- ppci > OUT/patch.confirm.diff
 [ -s OUT/patch.confirm.diff ] || { echo "no change in worktree"; exit 1; }
 $PY OUT/demo.py > OUT/demo.with.txt 2>&1; with=$?
-git stash -q
+# (no git stash: the stash is shared by all worktrees of the repository)
+patch -R -p1 -s < OUT/patch.confirm.diff || { echo "cannot reverse the change"; exit 1; }
 $PY OUT/demo.py > OUT/demo.without.txt 2>&1; without=$?
-git stash pop -q
+patch -p1 -s < OUT/patch.confirm.diff || { echo "cannot re-apply the change"; exit 1; }
 echo "demo: with change exit=$with, without exit=$without"
 t=$($PY -m pytest -q -p no:cacheprovider --timeout=900 -n 6 test/ 2>&1 | tail -1)
 echo "tests with change: $t"
